@@ -57,6 +57,32 @@ def serialNext (cm : ChildMaker ι ε) (population : List ι) : Rand (Except ε 
   | .error e => pure (.error e, population)   -- `polonius_try!`: early return, nothing assigned
   | .ok new => pure (.ok (), new)             -- `alias.population = new_population; Ok(())`
 
+/-! ## serial_next over any population type
+
+`Generation<P, C>` works for every `P: Population + FromIterator<P::Individual>`, not only `Vec`: `size()` is the
+length of the iteration, and the children are collected with `P::from_iter` - which for set-like populations
+(`BTreeSet`, `HashSet`) merges equal children, so the population can shrink.  The number of children a step makes is
+the size the population has *when the step starts*. -/
+
+/-- a population type seen through its iteration and `FromIterator` -/
+structure PopLike (P ι : Type) where
+  /-- the individuals in iteration order (`Population::size` is the length) -/
+  toList : P → List ι
+  /-- `FromIterator::from_iter` -/
+  ofList : List ι → P
+
+def PopLike.size {P : Type} (L : PopLike P ι) (p : P) : Nat := (L.toList p).length
+
+/-- `Vec<I>`: the identity -/
+def PopLike.vec : PopLike (List ι) ι := ⟨id, id⟩
+
+/-- `Generation::serial_next` for a population of type `P` -/
+def serialNextP {P : Type} (L : PopLike P ι) (cm : P → Rand (Except ε ι)) (population : P) :
+    Rand (Except ε Unit × P) := do
+  match ← collectResults (cm population) (L.size population) [] with
+  | .error e => pure (.error e, population)
+  | .ok new => pure (.ok (), L.ofList new)
+
 /-! ## par_next -/
 
 /-- one execution of the child maker: the position of the child in the new population and the
